@@ -186,7 +186,9 @@ def run(chk):
     codec.check_inplace(chk, "C02", 200 if chk.tier == "quick" else 3000)
     codec.check_layouts(chk, "C02", 240 if chk.tier == "quick" else 3000)
     codec.check_trimmed(chk, "C02", 96 if chk.tier == "quick" else 1200)
+    codec.check_partial_gaps(chk, "C02", 45 if chk.tier == "quick" else 600)
     codec.check_stray_attributes(chk, "C02", 30 if chk.tier == "quick" else 400)
+    codec.check_reassigned_arrays(chk, "C02", 60 if chk.tier == "quick" else 800)
     boundary_labels(chk)
     after_refused_calls(chk)
     zero_frame_blocks(chk)
